@@ -207,6 +207,45 @@ let tree_sql out =
         List.iter go roots;
         Printf.fprintf out "%s %s => %s\n" entry hex (Buffer.contents b))
 
+(* ---------- expression fragment: extracted parser model on the token list produced by the real lexer ---------- *)
+let rec dump_tree (b : Buffer.t) (t : tree) : unit =
+  match t with
+  | TNil -> Buffer.add_string b "nil"
+  | TPos p -> Buffer.add_string b ("P" ^ string_of_int (int_of_z p))
+  | TBool v -> Buffer.add_string b (if v then "B1" else "B0")
+  | TInt z -> Buffer.add_string b ("I" ^ string_of_int (int_of_z z))
+  | TStr s -> Buffer.add_string b ("S" ^ hex_of_string (string_of_bytes s))
+  | TList l -> Buffer.add_char b '['; List.iteri (fun i x -> if i > 0 then Buffer.add_char b ' '; dump_tree b x) l; Buffer.add_char b ']'
+  | TTok _ -> Buffer.add_string b "(tok)"
+  | TNode (ty, fs) ->
+    Buffer.add_char b '('; Buffer.add_string b (string_of_coq ty);
+    List.iter (fun x -> Buffer.add_char b ' '; dump_tree b x) fs; Buffer.add_char b ')'
+
+let parse_tok (s : string) : ptok =
+  match String.split_on_char ',' s with
+  | [k; r; a; p; e; bse] ->
+    { pk = bytes_of_string (string_of_hex k); praw = bytes_of_string (string_of_hex r); pstr = bytes_of_string (string_of_hex a);
+      ppos = z_of_int (int_of_string p); pend = z_of_int (int_of_string e); pbase = z_of_int (int_of_string bse) }
+  | _ -> Stdlib.raise (Bad_dump ("token " ^ s))
+
+let expr_model out =
+  try while true do
+    let line = input_line stdin in
+    match String.split_on_char ' ' line with
+    | [hex; "=>"; "LEXERR"] -> Printf.fprintf out "%s => LEXERR\n" hex
+    | [hex; "=>"; toks] ->
+      let ts = List.map parse_tok (List.filter (fun x -> x <> "") (String.split_on_char ';' toks)) in
+      (match parse_expr ts with
+       | Ok (e, rest) ->
+         let b = Buffer.create 256 in
+         dump_tree b (to_tree e);
+         Printf.fprintf out "%s => OK %d %s\n" hex (List.length rest) (Buffer.contents b)
+       | Err p -> Printf.fprintf out "%s => ERR %d\n" hex (int_of_z p)
+       | Unsup -> Printf.fprintf out "%s => UNSUP\n" hex
+       | Fuel -> Printf.fprintf out "%s => FUEL\n" hex)
+    | _ -> ()
+  done with End_of_file -> ()
+
 (* tree-wt: is every returned tree well typed against the regenerated schema (field count, kinds, interface conformance)? *)
 let tree_wt out =
   each_case (fun entry hex roots ->
@@ -253,5 +292,6 @@ let run (args : string list) : bool =
    | ["tree-walk"; m; o] -> tree_walk out (int_of_string m) (int_of_string o) false; true
    | ["tree-sql"; tbl] -> load_isprint tbl; tree_sql out; true
    | ["tree-wt"] -> tree_wt out; true
+   | ["expr-model"] -> expr_model out; true
    | ["tree-walkmany"] -> tree_walk out 0 0 true; true
    | _ -> false)
